@@ -31,7 +31,8 @@ F = ['sdc11073.mdib.providermdib.ProviderMdib._transaction_manager',
      'sdc11073.mdib.mdibbase.MultiStatesLookup.set_version', 'sdc11073.mdib.mdibbase.MdibBase.rm_descriptors_and_states',
      'sdc11073.mdib.mdibbase.EntityGetter._mk_entity', 'sdc11073.mdib.providermdib.ProviderEntityGetter.new_entity']
 SK = ['metric', 'alert', 'component', 'context_get', 'context_new', 'metric_entity', 'context_entity']
-OPS = ['none', 'update_descr', 'update_state', 'update_parent', 'create_child', 'remove_sibling', 'remove_self', 'remove_parent', 'remove_context_descriptor']
+OPS = ['none', 'update_descr', 'update_state', 'update_parent', 'create_child', 'remove_sibling', 'remove_self', 'remove_parent',
+       'remove_context_descriptor', 'create_second_child']
 IF = ['classic', 'entity']
 
 
@@ -42,17 +43,28 @@ def obligations(tier):
         obs.append(Ob(f'C02.state.{name}', 'harness.C02', 'state_tx', bind={'kind': kind}, timeout=t, functions=F, stubs=STUBS,
                       bounds='symbolic dv, sv, mv in N, str <= 2; empty / committed / aborted transaction (selector)',
                       claim='MdibVersion +1 iff committed; StateVersion +1; everything else untouched; integrity invariants hold'))
-    pairs = [(i, a, b) for i in range(2) for a in range(9) for b in range(9) if (a, b) != (0, 0)]
+    pairs = [(i, a, b) for i in range(2) for a in range(10) for b in range(10) if (a, b) != (0, 0)]
     if tier == 'quick':
         keep = {(1, 2), (3, 1), (1, 3), (4, 3), (3, 4), (5, 3), (3, 5), (6, 2), (4, 5), (0, 4), (6, 0), (1, 6), (5, 7), (7, 5),
-                (0, 7), (4, 7), (0, 8), (8, 1)}
+                (0, 7), (4, 7), (0, 8), (8, 1), (4, 9), (9, 5)}
         pairs = [(i, a, b) for (i, a, b) in pairs if (a, b) in keep]
+    claim = ('rejected => no effect; committed => MdibVersion +1, counters monotone, changed content => greater counter, parent bumped '
+             'on child add/remove, state DescriptorVersion == descriptor\'s, unnamed objects untouched; the descriptor versions the '
+             'transaction PUBLISHES per handle are new, strictly increasing and end at the version the MDIB holds')
     for i, a, b in pairs:
-        obs.append(Ob(f'C02.descr.{IF[i]}.{OPS[a]}.{OPS[b]}', 'harness.C02', 'descr_tx', bind={'iface': i, 'op1': a, 'op2': b},
+        obs.append(Ob(f'C02.descr.{IF[i]}.{OPS[a]}.{OPS[b]}', 'harness.C02', 'descr_tx', bind={'iface': i, 'op1': a, 'op2': b, 'op3': 0},
                       timeout=t, functions=F, stubs=STUBS, twin=(tier == 'quick'),
                       bounds='symbolic dv, sv, mv, parent dv in N; two operations in this order in one descriptor transaction',
-                      claim='rejected => no effect; committed => MdibVersion +1, counters monotone, changed content => greater counter, '
-                            'parent bumped on child add/remove, state DescriptorVersion == descriptor\'s, unnamed objects untouched'))
+                      claim=claim))
+    # three operations: the third one arbitrary (quick: the sequences around "children first, parent last")
+    triples = [(i, a, b) for i in range(2) for a in (3, 4, 5, 9) for b in (3, 4, 5, 9) if a != b]
+    if tier == 'quick':
+        triples = [(i, a, b) for (i, a, b) in triples if (a, b) in {(4, 9), (9, 5), (4, 5)}]
+    for i, a, b in triples:
+        obs.append(Ob(f'C02.descr3.{IF[i]}.{OPS[a]}.{OPS[b]}.any', 'harness.C02', 'descr_tx', bind={'iface': i, 'op1': a, 'op2': b},
+                      timeout=t if tier == 'quick' else 900, functions=F, stubs=STUBS, twin=False,
+                      bounds='symbolic dv, sv, mv, parent dv in N; three operations in one descriptor transaction: these two, then ANY of '
+                             'the 9 operations (symbolic)', claim=claim))
     for kd, nm in enumerate(['descriptor_tx_single_state', 'metric_state_tx', 'context_tx', 'descriptor_tx_multi_state']):
         obs.append(Ob(f'C02.stale_entity.{nm}', 'harness.C02', 'stale_entity_write', bind={'kind': kd}, timeout=t, functions=F,
                       stubs=STUBS, bounds='entity copy with symbolic own counters ev <= dv, esv <= sv (any staleness); dv, sv, mv in N',
